@@ -181,8 +181,24 @@ func zvC02PartA(r *vh.Run, ds []zvSelPD, tri []int) {
 	n := len(ds)
 	ps := zvSelBuildAll(ds)
 	const panicked = 9
+	inTri := make([]bool, n)
+	for _, x := range tri {
+		inTri[x] = true
+	}
+	r.Extra("triple_domain_paths", len(tri))
+	// sign matrix: rows of this shard (pairs) and rows of the triple domain
+	cell := func(i, j int) int8 {
+		if s, p, _ := zvC02Select(ps[i], ps[j]); p {
+			return panicked
+		} else {
+			return int8(s)
+		}
+	}
 	m := make([][]int8, n)
 	for i := range m {
+		if !inTri[i] && !r.Mine(i) {
+			continue
+		}
 		m[i] = make([]int8, n)
 		row := m[i]
 		if pan, _ := vh.Try(func() {
@@ -191,11 +207,7 @@ func zvC02PartA(r *vh.Run, ds []zvSelPD, tri []int) {
 			}
 		}); pan {
 			for j := 0; j < n; j++ {
-				if s, p, _ := zvC02Select(ps[i], ps[j]); p {
-					row[j] = panicked
-				} else {
-					row[j] = int8(s)
-				}
+				row[j] = cell(i, j)
 			}
 		}
 	}
@@ -212,11 +224,6 @@ func zvC02PartA(r *vh.Run, ds []zvSelPD, tri []int) {
 	r.Extra("domain_paths", n)
 	r.Extra("domain_reference_classes", len(keyIdx))
 	th := &zvC02Throttle{seen: map[string]int{}, max: 8}
-	inTri := make([]bool, n)
-	for _, x := range tri {
-		inTri[x] = true
-	}
-	r.Extra("triple_domain_paths", len(tri))
 	var pairsStrict, pairsTieOK, pairsDistinct, notItemised int64
 	var trPremise, trTieLink, trEval int64
 	for i := 0; i < n; i++ {
@@ -230,7 +237,13 @@ func zvC02PartA(r *vh.Run, ds []zvSelPD, tri []int) {
 		mi := m[i]
 		// pairs (i, j)
 		for j := 0; j < n; j++ {
-			sij, sji := mi[j], m[j][i]
+			sij := mi[j]
+			var sji int8
+			if m[j] != nil {
+				sji = m[j][i]
+			} else {
+				sji = cell(j, i)
+			}
 			viol := sij == panicked || sji == panicked || sij != -sji || (sij == 0 && rk[i] != rk[j])
 			if i != j {
 				pairsDistinct++
@@ -687,8 +700,9 @@ func zvC02Domains(thorough bool) (d3, d4 []zvSelPD) {
 	if thorough {
 		s3.LP = []int{100, 200}
 		s3.EBGP = []bool{false, true}
-		s4.Orig = []uint32{0, 1, 3}
+		s4.Orig = []uint32{0, 3}
 		s4.CL = []int{-1, 0, 1, 2}
+		extra4 = append(extra4, zvSelPD{LP: 100, ASLen: 1, ID: 2, Orig: 1, CL: -1, Peer: 1, NH: 1}, zvSelPD{LP: 100, ASLen: 1, ID: 2, Orig: 1, CL: 1, Peer: 2, NH: 1})
 	} else {
 		// ORIGINATOR_ID substitution and an empty CLUSTER_LIST, a few representatives
 		for _, cl := range []int{-1, 1} {
@@ -762,7 +776,7 @@ func TestVerifC02(t *testing.T) {
 	// triples: the whole domain in the thorough tier, the half with next hop .1 in the quick tier
 	var tri []int
 	for i, d := range full {
-		if r.Thorough() || d.NH == 1 {
+		if r.Thorough() || d.NH == 1 || d.Static {
 			tri = append(tri, i)
 		}
 	}
